@@ -1,5 +1,5 @@
 (* C05 — results do not depend on worker count or completion order. *)
-From Verif Require Import Prelude Schedule ScheduleP ScheduleRed ScheduleRedP PairCount RoundRobin RoundRobinP.
+From Verif Require Import Prelude Schedule ScheduleP ScheduleRed ScheduleRedP PairCount RoundRobin RoundRobinP Cwd CwdP.
 From Verif Require MemoHistory MemoHistoryP.
 From Coq Require Import Permutation.
 Open Scope nat_scope.
@@ -104,6 +104,31 @@ Example C05_job_iterator_concrete :
   iter_pairs false [(0, [2; 0; 1]); (1, [1; 0]); (2, [0; 2])] = Some [(0, 0); (1, 1); (2, 2); (0, 2); (1, 0); (2, 0); (0, 1)] /\
   iter_pairs true [(0, [1]); (1, [1; 0])] = None.
 Proof. vm_compute. repeat split; reflexivity. Qed.
+(* ---------------- relative cache paths and the working directory ---------------- *)
+(* workers forked inside every parallel section resolve relative paths against the caller's present directory: every
+   history of directory changes and measurements reads the caches of the directory the caller is in ... *)
+Theorem C05_fresh_workers_follow_cwd : forall (D : Type) (fsys : @disk D) (ops : list op) (s : st),
+  run (step_fresh fsys) s ops = spec fsys (cwd s) ops.
+Proof. exact @fresh_workers_follow_cwd. Qed.
+Print Assumptions C05_fresh_workers_follow_cwd.
+(* ... whatever the worker counts are *)
+Theorem C05_fresh_workers_count_free : forall (D : Type) (fsys : @disk D) (ops ops' : list op) (s : st),
+  map one_worker ops = map one_worker ops' -> run (step_fresh fsys) s ops = run (step_fresh fsys) s ops'.
+Proof. exact @fresh_workers_count_free. Qed.
+Print Assumptions C05_fresh_workers_count_free.
+(* a pool of workers kept alive between sections is right only while the directory does not change ... *)
+Theorem C05_persistent_pool_ok_without_chdir : forall (D : Type) (fsys : @disk D) (ops : list op) (s : st),
+  (forall o, In o ops -> match o with Chdir _ => False | _ => True end) ->
+  (match pool_cwd s with Some d => d = cwd s | None => True end) ->
+  run (step_pool fsys) s ops = spec fsys (cwd s) ops.
+Proof. exact @pool_ok_without_chdir. Qed.
+Print Assumptions C05_persistent_pool_ok_without_chdir.
+(* ... afterwards its workers read another directory's cache of the same name *)
+Theorem C05_persistent_pool_after_chdir_refuted :
+  exists (fsys : @disk nat) ops s,
+    run (step_pool fsys) s ops <> spec fsys (cwd s) ops /\ run (step_fresh fsys) s ops = spec fsys (cwd s) ops.
+Proof. exact pool_after_chdir_refuted. Qed.
+Print Assumptions C05_persistent_pool_after_chdir_refuted.
 Example C05_concrete :
   let r01 := {| id1 := 0; id2 := 1; sw1 := [2%Q]; sw2 := [3%Q]; cnts := [[5%Q]] |} in
   let r00 := {| id1 := 0; id2 := 0; sw1 := [2%Q]; sw2 := [2%Q]; cnts := [[4%Q]] |} in
